@@ -14,3 +14,7 @@ pub(crate) mod ref_lex;
 mod head;
 pub(crate) mod guard;
 mod step;
+mod emit;
+mod table;
+mod mutc;
+mod esc_native;
